@@ -61,7 +61,15 @@ def streams(tier, rng, P, only=None, cases=None):
             add("".join(rng.choice(fr) for _ in range(3)), "3")
         for _ in range(20000 if big else 2000):
             add(rng.choice(["", " "]).join(rng.choice(fr) for _ in range(rng.randrange(4, 9))), "k")
+        # full-width forms of every fragment reaching the lexer unconverted (the text of a `{"..."}` string variable is not passed through
+        # the sutoton converter): the lexer's own full-width handling
+        def fw(t): return "".join(chr(ord(ch) - 0x21 + 0xFF01) if 0x21 <= ord(ch) <= 0x7E else ch for ch in t)
+        for a in fr:
+            if '"' in a or "FUNCTION" in a.upper(): continue
+            add('STR Zqx={"%s"} Zqx f' % fw(a), "fw")
+            add('STR Zqx={"%s"} Zqx f' % "".join(fw(ch) if rng.random() < 0.4 else ch for ch in a), "fw")
         # corpus of past crashes / hangs
+        add('STR A={"｛cde｝4"} A f', "corpus")
         for src in ["TimeSignature(4)", "SysEx=", "MasterVolume(100)", "MasterBalance(0)", "~{}={x} ド", "M.Frequency(0) M.onTime(0,127,!1)", "Random(0)", "PRINT(Random(0))",
                     "PRINT(RandomSelect())", "PRINT(Random(5,4))", "y1,", "$あ{n36,}", "v__1,100 c", "PRINT(7%0)", "PRINT(MID({abc},10,2))", "y200,1 c c PlayFrom(1:2:0)",
                     "INT A=(1", "PRINT(MID({あ},1,1))", "[0 c]", "[-1 c]", "TR(-1) c", "CH(99) c", "o99 c", "q-5 c", "l0 c", "c0", "{}", "{ }0", "'c'0", "TIME(0:0:0) c", "TimeSignature(0,0) TIME(2:1:0) c",
